@@ -86,7 +86,11 @@ def check_case(case):
             dis.append({"clause": "ShapeCount", "detail": "%s: %d shapes, expected %d" % (what, len(shapes), len(out))})
             continue
         for s, o in zip(shapes, out):
-            fill, fo, stroke, so, sw, det = o[3]
+            fill, fo, stroke, so, sw, det = o[3][:6]
+            if len(o[3]) > 6 and o[3][6] == "non-scaling-stroke":
+                # the width is scaled by the enclosing viewport transforms alone
+                v = [rat(x) for x in o[5]]
+                det = [abs(v[0] * v[3] - v[1] * v[2]).numerator, abs(v[0] * v[3] - v[1] * v[2]).denominator]
             if not colour_ok(s.fill, fill, fo):
                 dis.append({"clause": "Fill", "detail": "%s: fill %r (alpha %s), cascade gives %s with opacity %s" % (what, s.fill, getattr(s.fill, "alpha", None), fill, float(rat(fo)))})
             if not colour_ok(s.stroke, stroke, so):
